@@ -243,6 +243,21 @@ def splice_fn(rel, impl_sel, fn_name, opts, contract_lines):
         body = body.replace(a, b)
         sig = sig.replace(a, b)
         dropped.append("%s::%s: substitution `%s` => `%s`" % (impl_sel, fn_name, a, b))
+    # contract lines may be tagged `[mut]` / `[ref]`: kept only if the extracted signature takes `&mut self` / does not.
+    # (a change that turns a `&self` lookup into a `&mut self` mutator is then judged against the frame clause
+    # instead of making the contract ill-formed)
+    is_mut = re.search(r"&\s*(?:'\w+\s+)?mut\s+self\b", sig) is not None
+    sel = []
+    for c in contract_lines:
+        if c.startswith("[mut]"):
+            if is_mut:
+                sel.append(c[5:].strip())
+        elif c.startswith("[ref]"):
+            if not is_mut:
+                sel.append(c[5:].strip())
+        else:
+            sel.append(c)
+    contract_lines = sel
     out = ["// extracted verbatim from %s (%s::%s)" % (rel, impl_sel, fn_name), sig]
     out += ["    " + c for c in contract_lines]
     out.append(body)
